@@ -400,6 +400,14 @@ func Drive(ch *Check, tier string) int {
 
 	rep.Inconcl = inconcl
 	extra := map[string]interface{}{"known_findings_matched": len(knownHit)}
+	if cf := os.Getenv("VERIF_COVERAGE_FILE"); cf != "" {
+		if b, e := os.ReadFile(cf); e == nil {
+			var cov map[string]interface{}
+			if json.Unmarshal(b, &cov) == nil {
+				extra["library_coverage"] = cov
+			}
+		}
+	}
 	nv := len(fresh)
 	writeEvidence(env, ch, &rep, tier, time.Since(start).Seconds(), nv, extra)
 
